@@ -121,8 +121,111 @@ def lexer_table(ctx, col):
             col.judge(conv is not None, whole or (via_group and "fullmatch" in methods), R, d.qualname, d.loc(rets[0]),
                       "a number token is the conversion of the whole word", norm_src(rets[0].value),
                       f"`{norm_src(rets[0].value)}` does not convert the whole word", stmt="lex:float")
+    col.guard(number_language, ctx, col, d, m[0])
     return {"types": names, "open": table.get("("), "close": table.get(")"), "or": table.get("|"),
             "comment": table.get(";")}
+
+
+# what float() reads (ASCII part of the grammar in the language reference: digit groups may be separated by single underscores; inf / nan in any case); blanks cannot occur in a word
+_PY_DIGITS = r"[0-9](?:_?[0-9])*"
+PY_FLOAT = (rf"^[-+]?(?:(?:(?:{_PY_DIGITS})?\.{_PY_DIGITS}|{_PY_DIGITS}\.?)(?:[eE][-+]?{_PY_DIGITS})?|[iI][nN][fF](?:[iI][nN][iI][tT][yY])?|[nN][aA][nN])$")
+NUMERAL = r"^[-+]?(?:[0-9]+\.?[0-9]*|\.[0-9]+)(?:[eE][-+]?[0-9]+)?$"
+WORD_ALPHABET = list("0123456789+-._eEinfatyINFATYx")
+
+
+def number_language(ctx, col, d, match_stmt):
+    """R-NUMLANG: the words the lexer turns into FLOAT tokens, L(regex test as applied) intersected with L(float()), must be included in the plain decimal numerals
+    (product of three automata; a shortest offending word is reported)."""
+    from .. import relang
+    from collections import deque
+    repo = ctx.repo
+    col.rule("R-NUMLANG", "the words the lexer turns into numbers are plain decimal numerals: L(regex test as applied: match = prefix, fullmatch = whole word; none = every word) "
+             "intersected with what float() reads (underscore-separated digit groups, inf, nan) is included in [-+]digits[.digits][e[-+]digits] -- product automaton, shortest "
+             "counterexample; otherwise a corrupted coordinate such as `1_5` is converted (to 15) instead of rejected", floor=1)
+    arm = None
+    for case in match_stmt.cases:
+        for r in ast.walk(case):
+            if isinstance(r, ast.Return) and isinstance(r.value, ast.Call) and r.value.args and (dotted(r.value.args[0]) or "").endswith("FLOAT"):
+                arm = (case, r)
+    if arm is None:
+        col.unresolved("R-NUMLANG", d.qualname, d.loc(), "number words", "no arm returning a FLOAT token", stmt="numlang")
+        return
+    case, ret = arm
+    conv = ret.value.args[1] if len(ret.value.args) > 1 else None
+    if not (isinstance(conv, ast.Call) and dotted(conv.func) == "float" and conv.args and isinstance(conv.args[0], ast.Name)):
+        col.unresolved("R-NUMLANG", d.qualname, d.loc(ret), "number words", "the FLOAT token's value is not float(<word>)", stmt="numlang")
+        return
+    word = conv.args[0].id
+    tests = []
+    for c in ast.walk(case):
+        if isinstance(c, ast.Call) and isinstance(c.func, ast.Attribute) and c.func.attr in ("match", "fullmatch", "search") and c.args and isinstance(c.args[0], ast.Name) \
+                and c.args[0].id == word and isinstance(c.func.value, ast.Name):
+            tests.append((c.func.value.id, c.func.attr, c))
+    # the test must dominate the conversion: accepted only as the guard of this case or an enclosing `if` test
+    pats = []
+    for nm, meth, c in tests:
+        in_guard = case.guard is not None and any(x is c for x in ast.walk(case.guard))
+        in_if = any(isinstance(i_, ast.If) and any(x is c for x in ast.walk(i_.test)) and any(x is ret for x in ast.walk(i_)) and not any(x is ret for o_ in i_.orelse for x in ast.walk(o_))
+                    for i_ in ast.walk(case))
+        if not (in_guard or in_if):
+            continue
+        src = None
+        for st in d.module.tree.body:
+            if isinstance(st, ast.Assign) and len(st.targets) == 1 and isinstance(st.targets[0], ast.Name) and st.targets[0].id == nm and isinstance(st.value, ast.Call) \
+                    and (dotted(st.value.func) or "") == "re.compile" and st.value.args and isinstance(st.value.args[0], ast.Constant) and len(st.value.args) == 1 and not st.value.keywords:
+                src = st.value.args[0].value
+        if src is None:
+            col.unresolved("R-NUMLANG", d.qualname, d.loc(c), "number words", f"pattern of `{nm}` is not a literal re.compile(...) without flags", stmt="numlang")
+            return
+        pats.append((src, meth))
+    autos = []
+    try:
+        for src, meth in pats:
+            if meth == "fullmatch":
+                autos.append(relang.compile_nfa(f"^(?:{src})$"))
+            elif meth == "match":
+                autos.append(relang.compile_nfa(f"^(?:{src})", search=True))
+            else:
+                autos.append(relang.compile_nfa(f"(?:{src})", search=True))
+        autos.append(relang.compile_nfa(PY_FLOAT))
+        B, b0, bF = relang.compile_nfa(NUMERAL)
+    except relang.UnsupportedRegex as ex:
+        col.unresolved("R-NUMLANG", d.qualname, d.loc(), "number words", f"regex outside the supported constructs: {ex}", stmt="numlang")
+        return
+    start = (tuple(relang._closure(A, {a0}) for A, a0, _f in autos), relang._closure(B, {b0}))
+    seen = {start: None}
+    q = deque([start])
+    cex = None
+    while q and cex is None:
+        cur = q.popleft()
+        SAs, SB = cur
+        if all(aF in SA for (A, a0, aF), SA in zip(autos, SAs)) and bF not in SB:
+            w_, x = [], cur
+            while seen[x] is not None:
+                x, ch = seen[x]
+                w_.append(ch)
+            cex = "".join(reversed(w_))
+            break
+        for ch in WORD_ALPHABET:
+            NAs = tuple(relang._step(A, SA, ch) for (A, _a0, _aF), SA in zip(autos, SAs))
+            if not all(NAs):
+                continue
+            nxt = (NAs, relang._step(B, SB, ch))
+            if nxt not in seen:
+                seen[nxt] = (cur, ch)
+                q.append(nxt)
+    how = " and ".join(f"{m_}({p_!r})" for p_, m_ in pats) or "no regex test (every word that float() reads)"
+    if cex is None:
+        col.ok("R-NUMLANG", d.qualname, d.loc(ret), "every word that becomes a number is a plain decimal numeral", f"{how}; {len(seen)} product states", stmt="numlang")
+    else:
+        try:
+            val = float(cex)
+        except ValueError:
+            val = "?"
+        col.bad("R-NUMLANG", d.qualname, d.loc(ret), "every word that becomes a number is a plain decimal numeral",
+                f"the word `{cex}` passes {how} and float() reads it (as {val}): a point whose coordinate was corrupted to `{cex}` is converted with that value instead of being "
+                f"rejected (float() accepts underscore-separated digit groups, inf and nan; a prefix test does not see what follows the prefix)", stmt="numlang", definite=True,
+                facts={"counterexample": cex})
 
 
 # --------------------------------------------------------------------------- balance
